@@ -7,7 +7,7 @@ import os, json
 from lib.common import Ctx, Build, Scratch, InfraError
 from lib import emusrv, catalog, pv
 from lib.emusrv import Ev, Fin, i32, i64, u32
-from lib.explore import ServerPool, Explorer, Ref, short_hist, binding_cases
+from lib.explore import ServerPool, Explorer, Ref, short_hist, binding_cases, bind_shallow
 from checks.threadcpu import Layout, TcRef, build_graph, ACTIVE
 from checks.c08 import PrefixPool
 
@@ -323,6 +323,7 @@ def run(prop, tier):
                         cases.append(prefix + [x0, Ev(sidx[t0], mcv, pf(0)), Ev(sidx[t0], "OHp"), x1, Ev(sidx[t1], mcv, pf(1)),
                                                Ev(sidx[t0], "OHr"), Ev(sidx[t0], "OAs", i32(-1))])
                     binding_cases(ctx, build, system, pool, cases, g.name, emu_flags=())
+                    bind_shallow(ctx, build, system, pool, ex, g.name + "-shallow", emu_flags=(), limit=(150 if tier == "quick" else 1000))
                 ctx.sample({"group": g.name, "types": g.types, "states": st["states"], "probes": st["probes"],
                             "example": short_hist(prefix + [Ev(sidx[layout.tnames[0]], "OHx", i32(0, 101) + i64(0))])})
             finally:
